@@ -127,6 +127,13 @@ def install_fixture() -> None:
         f.write("import builtins\nbuiltins._verif_lazy_loaded = True\nclass MaintErr(Exception):\n    pass\n")
     import importlib
     importlib.import_module("verif_pkg")
+    # a package that is on sys.path but was never imported (neither it nor its sub-packages)
+    os.makedirs(os.path.join(d, "verif_cold_pkg", "sub"))
+    for rel in (("verif_cold_pkg", "__init__.py"), ("verif_cold_pkg", "sub", "__init__.py")):
+        with open(os.path.join(d, *rel), "w") as f:
+            f.write("import builtins\nbuiltins._verif_lazy_loaded = True\n")
+    with open(os.path.join(d, "verif_cold_pkg", "sub", "errors.py"), "w") as f:
+        f.write("class ColdErr(Exception):\n    pass\n")
 
 
 # abstract target -> (module name, dotted type name, kind of the object it resolves to)
@@ -138,7 +145,8 @@ TARGETS: Dict[str, Any] = {
     "nested_cls": (FIX, "Outer.InnerCls", "cls"), "nested_func": (FIX, "Outer.method", "func"),
     "os_system": ("os", "system", "func"), "eval": ("builtins", "eval", "func"), "object": ("builtins", "object", "cls"),
     "missing_attr": (FIX, "Nope", "missing"), "missing_nested": (FIX, "Outer.Nope", "missing"), "deep_missing": (FIX, "func.Nope.X", "missing"),
-    "lazy": ("verif_lazy_mod", "LazyExc", "notloaded"), "lazy_sub": ("verif_pkg.maint", "MaintErr", "notloaded"), "nomod": ("no.such.module", "Boom", "notloaded"),
+    "lazy": ("verif_lazy_mod", "LazyExc", "notloaded"), "lazy_sub": ("verif_pkg.maint", "MaintErr", "notloaded"),
+    "cold_pkg": ("verif_cold_pkg.sub.errors", "ColdErr", "notloaded"), "nomod": ("no.such.module", "Boom", "notloaded"),
     "nomodule_field": (None, "SomeRemoteError", "nomodule"), "nomodule_dotted": (None, "a.b.C", "nomodule"),
     "nomodule_builtin_name": (None, "eval", "nomodule"),
 }
@@ -169,7 +177,7 @@ def run_c20(case: Dict[str, Any]) -> Dict[str, Any]:
     before = set(sys.modules)
     if hasattr(builtins, "_verif_lazy_loaded"):
         delattr(builtins, "_verif_lazy_loaded")
-    for mname in ("verif_lazy_mod", "verif_pkg.maint"):
+    for mname in ("verif_lazy_mod", "verif_pkg.maint", "verif_cold_pkg", "verif_cold_pkg.sub", "verif_cold_pkg.sub.errors"):
         sys.modules.pop(mname, None)
         before.discard(mname)
     entry = case.get("entry", "validate")
@@ -209,8 +217,19 @@ def run_c20(case: Dict[str, Any]) -> Dict[str, Any]:
         else:
             cls_kind = "synthetic" if tcls.__name__ == name and tcls.__module__ in ("taskiq.exceptions", "taskiq.serialization") else "otherclass"
         name_ok = cls_kind == "resolved" or tcls.__name__ == name or (want is not None and want.__name__ in str(obj))
+    second = "n/a"
+    if case.get("then_import") and case["p"]["t"] == "lazy":
+        # the module gets imported by the application later on: from then on the real class must come back
+        import importlib
+        mod_obj = importlib.import_module("verif_lazy_mod")
+        try:
+            obj2 = TaskiqResult.model_validate({"is_err": True, "return_value": None, "execution_time": 0.1, "error": payload}).error
+            second = "resolved" if type(obj2) is mod_obj.LazyExc else "stale"
+        except Exception as exc:  # noqa: BLE001
+            second = "raised:" + type(exc).__name__
+        sys.modules.pop("verif_lazy_mod", None)
     return {"e": "load", "p": norm_payload(case["p"]), "entry": entry, "res": res, "cls_kind": cls_kind, "name_ok": bool(name_ok),
-            "called": len(CALLS), "imported": len(imported) + (1 if lazy else 0)}
+            "called": len(CALLS), "imported": len(imported) + (1 if lazy else 0), "second": second}
 
 
 # ----------------------------------------------------------------------------- C19: round trips
@@ -251,7 +270,7 @@ def make_class(kind: str) -> Any:
         return KeyError
     if kind == "builtin2":
         return UnicodeError
-    if kind == "module":
+    if kind in ("module", "attr"):
         return FixExc
     if kind == "nested":
         return Outer.InnerExc
@@ -267,6 +286,13 @@ def make_class(kind: str) -> Any:
         return FixEqHash
     if kind == "dcerr":
         return FixDcErr
+    if kind == "local_shadow":
+        def factory() -> Any:
+            class FixExc(Exception):      # same short name as the module-level FixExc, but a different class
+                pass
+            FixExc.__module__ = FIX
+            return FixExc
+        return factory()
     if kind == "local":
         class LocalErr(Exception):
             pass
@@ -276,7 +302,7 @@ def make_class(kind: str) -> Any:
     raise ValueError(kind)
 
 
-IMPORTABLE = {"builtin", "builtin2", "module", "nested", "baseonly", "eqhash", "dcerr"}
+IMPORTABLE = {"builtin", "builtin2", "module", "nested", "baseonly", "eqhash", "dcerr", "attr"}
 
 
 def make_exc(kind: str, akind: str, salt: int) -> BaseException:
@@ -289,6 +315,10 @@ def make_exc(kind: str, akind: str, salt: int) -> BaseException:
         e = cls(salt, 1)
     elif kind == "dcerr":
         e = cls(7, "r") if akind == "const" else cls(salt, "r%d" % salt)
+    elif kind == "attr":
+        e = FixExc(*make_args(akind, salt))
+        import threading
+        e.lock = threading.Lock()      # state added after construction that cannot be pickled  # type: ignore[attr-defined]
     else:
         e = cls(*make_args(akind, salt))
     return e
@@ -330,11 +360,17 @@ def project(dec: Any, objs: List[BaseException], nodes: List[Dict[str, Any]], n:
         out["args_equal"] = args_equal(tuple(getattr(dec, "args", ())), tuple(orig.args))
         out["names_original"] = ocls.__name__ in text
         out["base_of_original"] = isinstance(orig, type(dec)) and type(dec) not in (Exception, BaseException)
+        # a real class that is neither the original, nor one of its bases, nor one of taskiq's stand-ins
+        out["unrelated"] = (type(dec) is not ocls and not isinstance(orig, type(dec))
+                            and not type(dec).__module__.startswith("taskiq.") and type(dec).__module__ != "nowhere.at.all"
+                            and "<locals>" not in type(dec).__qualname__ and type(dec).__module__ in sys.modules
+                            and getattr(sys.modules[type(dec).__module__], type(dec).__name__, None) is type(dec))
         out["sup"] = bool(getattr(dec, "__suppress_context__", False))
         out["args_text"] = all(isinstance(x, (str, int, float, bool, type(None), list, dict, tuple, set, bytes, frozenset)) or isinstance(x, str)
                                for x in getattr(dec, "args", ()))
     else:
-        out.update({"same_class": False, "args_equal": False, "names_original": False, "base_of_original": False, "sup": False, "args_text": False})
+        out.update({"same_class": False, "args_equal": False, "names_original": False, "base_of_original": False, "sup": False, "args_text": False,
+                    "unrelated": False})
     if with_links and depth < 12 and isinstance(dec, BaseException):
         c = dec.__cause__
         x = dec.__context__
